@@ -1,7 +1,7 @@
 """Registry: which engine-V units and engine-K harness groups decide which property."""
 REGISTRY = {
     'C03': {
-        'v': ['c03_keyobjectset', 'c01_roamode'],
+        'v': ['c03_keyobjectset', 'c03_child_revoke', 'c01_roamode'],
         'k': [],
         'level_text': 'Per-operation contracts on the key object set: every insert/remove records the superseded object\'s revocation and never drops one (unbounded, all inputs, loop invariants). "Gone from the repository after the next synchronisation" needs histories and is not decided.',
         'level_note': 'Opaque external types (rpki-rs, HashMap key model), Revocation identity = (serial, expires); callers above the contracted kernels are unverified (DESIGN A8).',
@@ -40,6 +40,14 @@ REGISTRY['C10'] = {
     'level_note': 'uri::Rsync / Base64 / Hash opaque (is_parent_of, to_hash uninterpreted); HashMap key model; HashMap::get_mut assumed spec; RepositoryManager/HTTP layers unverified (A8).',
     'design_ref': 'DESIGN.md section 5 / C10',
     'not_covered': ['interleaving with RRDP file writes, session reset histories', 'publisher_rsync_base string construction'],
+}
+REGISTRY['C12'] = {
+    'v': ['c12_rfc6492', 'c12_rfc8181', 'c03_child_revoke'],
+    'k': [],
+    'level_text': 'Control-flow contracts: a child key revocation acts only on a key that the SENDING child has in use (not on a sibling\'s key), under that child\'s class-name mapping. Validate-before-process capability contracts for the RFC 6492 / RFC 8181 endpoints are listed per unit. The CMS/crypto itself is assumed sound.',
+    'level_note': 'ProvisioningCms/PublicationCms::validate assumed sound (rpki-rs + OpenSSL); decoder robustness against bit flips not decided.',
+    'design_ref': 'DESIGN.md section 5 / C12',
+    'not_covered': ['bit-flip robustness of the CMS decoders', 'no change of state on refusal beyond the processing function not being called'],
 }
 REGISTRY['C13'] = {
     'v': ['c13_roles', 'c13_h_api', 'c13_h_cas', 'c13_h_pubd', 'c13_h_ta', 'c13_h_bulk', 'c13_h_testbed', 'c13_h_root', 'c13_h_stats'],
